@@ -7,47 +7,47 @@ VERIF = os.path.dirname(os.path.dirname(os.path.abspath(__file__)))
 
 CLAIMS = {
  "C15": dict(
-   text="Static decision, on every run from /repo's current headers, of structural necessary clauses of the property: every hand-written copy/move constructor, copy/move assignment and friend swap of Simplex_tree and of all Persistence_matrix classes takes every non-empty data member and base sub-object from its source (member coverage, delegates followed; caches must be dropped by assignments), move constructor and move assignment reset the same source fields, no assignment operator flows off its end; every read of the deserialisation buffer must be dominated by a length test (it is not: known finding); every variable of static storage duration reachable from the two families is const, thread_local, empty or on a documented allow-list (independent objects on different threads); a copy never keeps or hands on the source's settings pointer. It does not decide observational equality of round trips or the absence of all undefined behaviour.",
+   text="Static decision, on every run from /repo's current headers, of structural necessary clauses of the property: every hand-written copy/move constructor, copy/move assignment and friend swap of Simplex_tree and of all Persistence_matrix classes takes every non-empty data member and base sub-object from its source (member coverage, delegates followed; caches must be dropped by assignments), move constructor and move assignment reset the same source fields; no function with a non-void return type (858 functions of the two families, and Matrix::insert_boundary on an instantiated option grid) flows off its end on any path; every function that creates simplex-tree nodes and maintains dimension_ itself considers the dimension bound on every creating path (deserialisation included); every read of the deserialisation buffer must be dominated by a length test (it is not: known finding); every variable of static storage duration reachable from the two families is const, thread_local, empty or on a documented allow-list (independent objects on different threads); a copy never keeps or hands on the source's settings pointer. It does not decide observational equality of round trips or the absence of all undefined behaviour.",
    note="Trusted: clang 14 parser/Sema, the extractor, tables/c15.json (named symbol + reason). Analysed on template patterns, so all if-constexpr arms are covered. The unbounded deserialisation reads are listed in known_findings.json with their ASan replay.",
-   tech="static analysis: custom clang AST member-coverage, path, inventory and information-flow rules (E1/E1b/E1c/E5/E6a/E10)", ref="DESIGN.md 4/C15"),
+   tech="static analysis: custom clang AST member-coverage, path, inventory and information-flow rules (E1/E1b/E1c/E5/E6a/E10/R3b)", ref="DESIGN.md 4/C15"),
  "C01": dict(
-   text="Static decision of representation-invariant clauses of the simplex tree that the read interfaces depend on: (R1) every creation of nodes is followed on every path by registration in the label lists, (R2) every path that destroys nodes or a Siblings updates dimension_/dimension_to_be_lowered_ (flag and remove_if-predicate idioms understood, helper obligations moved to callers), (R3) every user-callable creating function can raise dimension_, (R4) leaf convention on delete/new Siblings. Necessary conditions only; the content of the tree is not decided.",
-   note="Trusted: clang 14 parser/Sema, class-local call resolution by name, tables/c01.json (one exempt function with reason). Throwing paths carry no obligation.",
-   tech="static analysis: structured path rules with class-local may/must effect summaries (E2/E2g)", ref="DESIGN.md 4/C01"),
+   text="Static decision of representation-invariant clauses of the simplex tree that the read interfaces depend on: (R1) every creation of nodes is followed on every path by registration in the label lists, (R2) every path that destroys nodes or a Siblings updates dimension_/dimension_to_be_lowered_ (flag and remove_if-predicate idioms understood, helper obligations moved to callers), (R3) every user-callable creating function can raise dimension_ and (R3b) every creating path of a function that maintains dimension_ itself considers the bound, (R4) leaf convention on delete/new Siblings, (R5) no descent through children() of a node whose has_children() was not established on the path, (R6) a per-label intrusive node list is only destroyed under an emptiness test, (R7) rec_equal, evaluated on all 8 valuations of (left has children, right has children, children equal), continues iff both sides agree. Necessary conditions only; the content of the tree is not decided.",
+   note="Trusted: clang 14 parser/Sema, class-local call resolution by name, tables/c01.json (exempt sites, one reason each). Throwing paths carry no obligation.",
+   tech="static analysis: structured path rules with class-local may/must effect summaries (E2/E2g), guard-dominance rules, finite predicate enumeration of rec_equal", ref="DESIGN.md 4/C01"),
  "C10": dict(
-   text="Static decision of arithmetic-safety and refusal clauses of the coefficient-field classes: a symbolic range interpreter (linear forms over the modulus and the operands, exact Fourier-Motzkin, Houdini loop invariants) proves for every modulus in the stated range and all reduced operands that no intermediate of _add/_subtract/_multiply, the fused operations and get_value/_get_value (all instantiated integer types) wraps harmfully, overflows or converts a possibly negative value to unsigned before % or a comparison, and that every result is again in [0, modulus); run-time setters refuse 0, 1 and composites and do not depend on the previous state; the compile-time primality test is decided by compile-fail witnesses and its sibling copies must agree. Extended-Euclid inverses, the inverse-table loop bounds and GMP multi-field values are not decided.",
+   text="Static decision of arithmetic-safety and refusal clauses of the coefficient-field classes: a symbolic range interpreter (linear forms over the modulus and the operands, exact Fourier-Motzkin, Houdini loop invariants) proves for every modulus in the stated range and all reduced operands that no intermediate of _add/_subtract/_multiply, the fused operations and get_value/_get_value (element types unsigned int, unsigned short, unsigned long; int, long, short and unsigned arguments) wraps harmfully, overflows or converts a possibly negative value to unsigned before % or a comparison, and that every result is again in [0, modulus); run-time setters refuse 0, 1 and composites and do not depend on the previous state; the compile-time primality test is decided by compile-fail witnesses and its sibling copies must agree. Extended-Euclid inverses, the inverse-table loop bounds and GMP multi-field values are not decided.",
    note="Trusted: clang 14 Sema (implicit conversions as in the AST), contracts in tables/c10.json (each helper contract is verified on the helper itself), operands reduced as the property states. Documented overflow-unsafe fused operations are listed in known_findings.json.",
    tech="abstract interpretation (linear forms + Fourier-Motzkin) over the clang AST, path rules, compile-fail witnesses", ref="DESIGN.md 4/C10"),
  "C03": dict(
-   text="Static decision of structural clauses behind 'the filtration order is valid and deterministic': the simplex-tree comparator is evaluated on every valuation of its comparison keys and must equal the lexicographic strict order (filtration value, reverse-lexicographic vertex word); reverse_lexicographic_order is evaluated on every lockstep scenario; hence the order is strict and total and any sort, sequential or parallel, stable or not, yields one sequence; the TBB and the sequential build sort the same range with that comparator; comparator and helper write nothing; every self-invalidating mutator (and copy/move assignment) drops the filtration cache on every path on which it modified the tree; for_each_simplex runs the callback on a node before its children and visits siblings backwards (what make_filtration_non_decreasing relies on). The values computed by make_filtration_non_decreasing / extend_filtration / prune are not decided.",
+   text="Static decision of structural clauses behind 'the filtration order is valid and deterministic': the simplex-tree comparator is evaluated on every valuation of its comparison keys and must equal the lexicographic strict order (filtration value, reverse-lexicographic vertex word); reverse_lexicographic_order is evaluated on every lockstep scenario; hence the order is strict and total and any sort, sequential or parallel, stable or not, yields one sequence; the TBB and the sequential build sort the same range with that comparator; comparator and helper write nothing; every self-invalidating mutator (and copy/move assignment) drops the filtration cache on every path on which it modified the tree; for_each_simplex runs the callback on a node before its children and visits siblings backwards (what make_filtration_non_decreasing relies on); the lazy initialiser recomputes the cache exactly when it is empty (the cache protocol: a cache built with an ignorer or a custom order is legitimately different from the default one); unify_lifetimes / intersect_lifetimes, evaluated on the three relations of their arguments, overwrite the first argument and report a modification exactly when it changes, and make_filtration_non_decreasing returns their accumulated answer. The values computed by extend_filtration / prune are not decided.",
    note="Trusted: clang 14 parser, trichotomy of filtration values (no NaN, as the property states), tables/c03.json (the documented self-invalidating mutators). Both preprocessor configurations (GUDHI_USE_TBB on/off) are parsed on every run.",
    tech="finite predicate enumeration over comparator ASTs, sibling-arm agreement, purity, path rules with flag idiom", ref="DESIGN.md 4/C03"),
  "C13": dict(
-   text="Static decision of the filtration-order clause of cubical complexes: is_before_in_filtration equals, on all 27 valuations of its keys, the lexicographic strict order (value, dimension, cell index): non-decreasing, faces first among equal values, total; both GUDHI_USE_TBB configurations sort the same range with it; it is pure. Boundary/coboundary incidences, dd=0, lower-star values and periodic index arithmetic are not decided (value-level).",
-   note="Trusted: clang 14 parser, trichotomy of the cell values. Only the order clause of C13 is claimed.",
-   tech="finite predicate enumeration over the comparator AST, sibling-arm agreement, purity", ref="DESIGN.md 4/C13"),
+   text="Static decision of the filtration-order clause of cubical complexes: is_before_in_filtration equals, on all 27 valuations of its keys, the lexicographic strict order (value, dimension, cell index): non-decreasing, faces first among equal values, total; both GUDHI_USE_TBB configurations sort the same range with it; it is pure. Boundary enumeration 'with signs alternating': in get_boundary_of_a_cell (plain and periodic) every direction in which the cell is thick contributes exactly two faces and advances the alternation counter exactly once on every path, thin directions contribute nothing, and the two parity arms push the same two faces in opposite order. Lower-star / upper-star propagation starts every non-input cell from the neutral element (+inf for min, -inf for max) in both classes. Coboundary incidences, dd=0 as a value identity and periodic index arithmetic are not decided (value-level).",
+   note="Trusted: clang 14 parser, trichotomy of the cell values. The order clause, the alternation shape and the initial values of C13 are claimed.",
+   tech="finite predicate enumeration over the comparator AST, sibling-arm agreement, purity, counting path rule, sibling-class agreement", ref="DESIGN.md 4/C13"),
  "C16": dict(
-   text="Static decision of one information-flow clause of the toplex maps: in every loop over maximal simplices that erases the current toplex and re-inserts simplices in the same iteration (remove_simplex, remove_vertex, contraction, unitary_collapse, eager and lazy), each re-inserted simplex is data-dependent on the erased toplex (def-use closure over the loop body) - the faces that survive a removal are a function of the destroyed toplex. Membership answers for all histories, the maximality/no-duplicate invariant and eager/lazy agreement are not decided.",
+   text="Static decision of one information-flow clause of the toplex maps: in every loop over maximal simplices that erases the current toplex and re-inserts simplices in the same iteration (remove_simplex, remove_vertex, contraction, unitary_collapse, eager and lazy), each re-inserted simplex is data-dependent on the erased toplex (def-use closure over the loop body) - the faces that survive a removal are a function of the destroyed toplex; insert_independent_simplex (which stores its argument without looking for stored faces or cofaces) receives inside such a loop only a simplex obtained from the erased toplex by removing vertices; every path of remove_simplex that erases a stored simplex does so inside the loop over all simplices stored at the pivot vertex (all cofaces go). Membership answers for all histories, the maximality/no-duplicate invariant and eager/lazy agreement are not decided.",
    note="Trusted: clang 14 parser; dependence is syntactic def-use (an over-approximation of data dependence).",
-   tech="def-use / information-flow rule over the clang AST (E10)", ref="DESIGN.md 4/C16"),
+   tech="def-use / information-flow rules and a loop-domination path rule over the clang AST (E10, E2)", ref="DESIGN.md 4/C16"),
  "C12": dict(
-   text="Static decision of structural clauses of the flag-complex edge collapser: under GUDHI_COLLAPSE_USE_DENSE_ARRAY every writer of the sparse neighbour table writes the dense table with the same symmetric key pairs and values, and both configurations perform the same sparse writes; the dense and sparse arms of the domination tests compare against the same bound with the same strictness; an emitted edge carries the endpoints of the current input edge and exactly the new time written to the neighbour table; a removed edge is not emitted; the edge sort is the strict descending order on the value in the TBB and the sequential build. That the collapsed graph has the same persistence (the domination argument) is not decided.",
+   text="Static decision of structural clauses of the flag-complex edge collapser: under GUDHI_COLLAPSE_USE_DENSE_ARRAY every writer of the sparse neighbour table writes the dense table with the same symmetric key pairs and values, and both configurations perform the same sparse writes; the dense and sparse arms of the domination tests compare against the same bound with the same strictness; an emitted edge carries the endpoints of the current input edge and exactly the new time written to the neighbour table; a removed edge is not emitted; a position found by lower_bound in a sparse neighbour list is compared with end and with the key before it is used; the edge sort is the strict descending order on the value in the TBB and the sequential build. That the collapsed graph has the same persistence (the domination argument) is not decided.",
    note="Trusted: clang 14 parser; three preprocessor configurations are parsed on every run; key expressions are compared textually inside one function.",
    tech="dual-table / sibling-arm agreement, provenance, comparator enumeration over the clang AST", ref="DESIGN.md 4/C12"),
  "C04": dict(
-   text="Static decision of the reporting clause of incremental flag insertion ('each incremental insertion reports exactly the simplices it created'): in insert_edge_as_flag and every function that receives its output vector, every creation of nodes is followed on every path by the push of those nodes into the output before the next creation or the exit, nothing is pushed that was not created on that path, and a creation that turns out not to have happened (`ins.second` false) must not have been reported. Equality of the complexes built by the three expansion routes, filtration values and blocker maximality are not decided.",
+   text="Static decision of the reporting clause of incremental flag insertion ('each incremental insertion reports exactly the simplices it created'): in insert_edge_as_flag and every function that receives its output vector, every creation of nodes is followed on every path by the push of those nodes into the output before the next creation or the exit, nothing is pushed that was not created on that path, and a creation that turns out not to have happened (`ins.second` false) must not have been reported. The Rips builders hand the graph a vertex count that is a counter started at 0 and incremented exactly once on every path through a loop over all points that is never left early; insert_graph takes every vertex value from the graph's vertex property and every edge value from its edge property (both reads flow into the creation of the nodes). Equality of the complexes built by the three expansion routes and blocker maximality are not decided.",
    note="Trusted: clang 14 parser, class-local call resolution by name, the for-all loop idiom. Shares the creation events of C01.",
-   tech="structured path rule with pairing/counting (E2n) over the clang AST", ref="DESIGN.md 4/C04"),
+   tech="structured path rules with pairing/counting (E2n) and an information-flow rule (E10) over the clang AST", ref="DESIGN.md 4/C04"),
  "C14": dict(
    text="Static decision of structural clauses of the specialised routines. 2-D: the pre-pairing fill_and_pair is evaluated on every valuation of its neighbour predicates (256 interior + 4 x 32 border leaves, exhaustive for the abstraction) and must pair or mark critical each cell owned by the current square exactly once and touch no cell another square owns - a necessary condition for a correct Morse pre-pairing; the four provisional corner writes must address distinct vertices under the precondition the entry point states (n >= 2: they do not, recorded as a known finding); in the union-find passes, on every valuation of the guard, the exterior cell never receives a parent and the younger cluster dies. 1-D: filtration values are ordered only through the user's comparator and its derived le/ge/gt are correct. The goto state machine of the 1-D routine (a whole-stack invariant) and the pairs produced by the primal/dual passes are not decided.",
    note="Trusted: clang 14 parser; the ownership convention (a cell belongs to the smallest square containing it; border squares keep only their inner edge and its two vertices); independence of the neighbour predicates. Guards the evaluator cannot interpret are explored both ways.",
    tech="finite predicate enumeration over the clang AST (exhaustive), linear-form reasoning (Fourier-Motzkin), comparator discipline", ref="DESIGN.md 4/C14"),
  "C06": dict(
-   text="Static decision of the truthful-return clause of vineyard swaps as a typestate/counting rule over every path of the case analysis, for RU_vine_swap and Chain_vine_swap (vine_swap, vine_swap_with_z_eq_1_case and the four sign handlers each): the two cells are exchanged exactly once; the returned value says 'bars exchanged' iff exactly one bar transposition ran and 'bars kept' iff none ran; the transposition or handler applied is the one of the sign case established by the guards on the path (guards evaluated on the four sign valuations); each RU transposition rewrites birth/death/indexToBar_ of the two positions according to its sign case. Equivalence with a freshly built matrix, and Chain_matrix::remove_last after swaps, are not decided.",
-   note="Trusted: clang 14 parser; template patterns with contradictory if-constexpr arms pruned; the *_transpose functions are the only code exchanging bars.",
-   tech="typestate / counting path rule (E2n) and guard evaluation over the clang AST", ref="DESIGN.md 4/C06"),
+   text="Static decision of the truthful-return clause of vineyard swaps as a typestate/counting rule over every path of the case analysis, for RU_vine_swap and Chain_vine_swap (vine_swap, vine_swap_with_z_eq_1_case and the four sign handlers each): the two cells are exchanged exactly once; the returned value says 'bars exchanged' iff exactly one bar transposition ran and 'bars kept' iff none ran; the transposition or handler applied is the one of the sign case established by the guards on the path (guards evaluated on the four sign valuations); each RU transposition rewrites birth/death/indexToBar_ of the two positions according to its sign case and moves the position-map entries of both columns; in the whole chain family column indices, cell identifiers and filtration positions (the library's own typedefs Index / ID_index / Pos_index) never meet in an assignment, comparison, subscript, argument or return except at the four documented conflations. Equivalence with a freshly built matrix, and Chain_matrix::remove_last after swaps, are not decided.",
+   note="Trusted: clang 14 parser; template patterns with contradictory if-constexpr arms pruned; the *_transpose functions are the only code exchanging bars; tables/c06.json lists the kind conflations with reasons.",
+   tech="typestate / counting path rule (E2n), guard evaluation and an index-kind (units-of-measure) analysis over the clang AST", ref="DESIGN.md 4/C06"),
  "C07": dict(
-   text="Static decision of one bookkeeping clause of zigzag persistence: on every path of the forward arrow, the surjective reflection diamond and the backward arrow, every creation of a key in births_ is paired with exactly one registration of the same birth in the birth ordering, every erasure with exactly one remove_birth, and every streamed finite interval with the removal of exactly the birth it reports; the diamond orders the available births through the ordering. A birth that is unregistered or stale mis-pairs later diamonds. The interval decomposition itself, and the filtered front-ends' value translation, are not decided.",
+   text="Static decision of one bookkeeping clause of zigzag persistence: on every path of the forward arrow, the surjective reflection diamond and the backward arrow, every creation of a key in births_ is paired with exactly one registration of the same birth in the birth ordering, every erasure with exactly one remove_birth, and every streamed finite interval with the removal of exactly the birth it reports; the diamond orders the available births through the ordering. A birth that is unregistered or stale mis-pairs later diamonds. The filtered front-ends advance the arrow counter exactly once on every path of insert_cell / remove_cell and key nothing with it before; every path of the surjective diamond that accumulated chains moves its accumulation frontier to the chain it accumulated into. The interval decomposition itself is not decided.",
    note="Trusted: clang 14 parser; births_[k] = v creates a key while births_.at(k) = v updates one.",
    tech="counting / pairing path rule (E2n) over the clang AST", ref="DESIGN.md 4/C07"),
  "C09": dict(
@@ -55,9 +55,9 @@ CLAIMS = {
    note="Trusted: clang 14 parser; template patterns; tables/c09.json (four exempt loops with reasons). Four genuine defects found by these rules were repaired in /repo (known_findings.json, fixed).",
    tech="information-flow, sibling/mirror agreement and typestate path rules over the clang AST (E10, E7, E2)", ref="DESIGN.md 4/C09"),
  "C05": dict(
-   text="Static decision of invariant-maintenance clauses of the persistence-matrix flavours: on every path of RU_matrix and RU_vine_swap the stored factor U receives the mirror of every column operation applied to R (add / multiply-and-add / column and row swaps / insertion / removal; helper functions are summarised and accounted at their callers), which is necessary for R and U to keep factoring the boundary matrix; the reduction emits exactly one barcode event per inserted column and records the pivot exactly when the column stays non-zero; remove_last removes one bar and forgets the pivot; the chain matrix keeps its pivot dictionary in step with column insertions, removals and pivot-changing additions. That the reductions are correct (R reduced, barcode equal to an independent reduction) is not decided.",
+   text="Static decision of invariant-maintenance clauses of the persistence-matrix flavours: on every path of RU_matrix and RU_vine_swap the stored factor U receives the mirror of every column operation applied to R (add / multiply-and-add / column and row swaps / insertion / removal; helper functions are summarised and accounted at their callers), which is necessary for R and U to keep factoring the boundary matrix; the reduction emits exactly one barcode event per inserted column and records the pivot exactly when the column stays non-zero; remove_last removes one bar and forgets the pivot; the chain matrix keeps its pivot dictionary in step with column insertions, removals and pivot-changing additions; in the barcode bookkeeping of the boundary and RU flavours cell identifiers and positions never meet (index-kind analysis); a cell inserted with an explicit dimension keeps it - every callee that takes a Dimension receives a value data-dependent on the caller's Dimension parameter. That the reductions are correct (R reduced, barcode equal to an independent reduction) is not decided.",
    note="Trusted: clang 14 parser; template patterns; for Z2 the factor U is stored transposed, so a column addition on R is mirrored by add_to with exchanged indices or by one pushed entry.",
-   tech="companion-update / counting path rules with helper summaries over the clang AST (E2, E2n)", ref="DESIGN.md 4/C05"),
+   tech="companion-update / counting path rules with helper summaries, index-kind analysis and def-use provenance over the clang AST (E2, E2n, E11, E10)", ref="DESIGN.md 4/C05"),
 }
 
 NA = {
